@@ -36,7 +36,7 @@ COMPONENTS = {
     "real": ["ConstraintInfo.create / transform_from_optimizer", "EnsembleEvaluator", "tracker handler", "VariableScaler"],
     "stub": ["SimEvaluator", "sim/scripted optimizer", "objective/constraint scalers"],
 }
-PROBES = ["nested_shared_scaler_linear_checked", "results_checked", "point_outside_finite_bound", "mixed_infinite_bounds", "linear_checked", "nonlinear_checked",
+PROBES = ["zero_linear_row", "nested_shared_scaler_linear_checked", "results_checked", "point_outside_finite_bound", "mixed_infinite_bounds", "linear_checked", "nonlinear_checked",
           "functions_none_result", "tracker_rejected_infeasible", "tracker_accepted", "transformed_checked"]
 
 
@@ -64,6 +64,14 @@ def generate(seed: int, index: int, tier: str) -> dict:
         gen.add_nan_faults(rng, scn, rate=1.0, max_faults=2)
     scn["plan"]["trackers"] = [{"what": "last", "tol": rng.choice([None, 0.0, 1e-10, 1e-3, 0.5]), "sources": [0]}]
     scn["stratum"] = "monitor"
+    if cfg.get("linear_constraints") and rng.random() < 0.2:
+        # a row of zeros (a constraint that does not depend on the variables): its value 0 lies inside or outside its bounds
+        lc = cfg["linear_constraints"]
+        k = rng.randrange(len(lc["coefficients"]))
+        lc["coefficients"][k] = [0.0] * nv
+        if rng.random() < 0.6:
+            lc["lower_bounds"][k], lc["upper_bounds"][k] = 0.5, 3.0
+        scn["zero_linear_row"] = True
     tr = scn.get("transforms") or {}
     if nv >= 2 and st["kind"] == "optimizer" and (tr.get("var") or {}).get("scales") and rng.random() < 0.5:
         # a nested plan on the same variables (so: the same variable transform object) whose inner configuration has its
@@ -172,6 +180,8 @@ def execute(scn: dict) -> dict:
             lub = np.broadcast_to(np.atleast_1d(np.asarray(lin["upper_bounds"], float)), (A.shape[0],))
             val = A @ xu
             probe("linear_checked")
+            if scn.get("zero_linear_row"):
+                probe("zero_linear_row")
             if ci is None:
                 viol.append({"clause": "linear-info-missing", "sig": {}, "detail": f"{where}: constraint_info is None"})
             else:
